@@ -39,8 +39,8 @@ type shRec struct {
 	Name string
 }
 
-var shapeContainers = []string{"ptrs", "ptrmap", "structs", "nested", "namedkeys", "intkeys", "boolkeys", "ifaces", "funcs", "ifacekeys", "rec"}
-var shapeVals = []string{"null", "undefined", "1", "1.5", "-1", "'s'", "true", "({})", "[]", "[1]", "ptrs[1]", "ptrs[0]", "structs[0]", "nested[0]", "function(){}", "funcs[0]", "new Number(3)", "ptrmap.a", "namedkeys", "1e21", "NaN"}
+var shapeContainers = []string{"ptrs", "ptrmap", "structs", "nested", "namedkeys", "intkeys", "boolkeys", "ifaces", "funcs", "ifacekeys", "rec", "arrs", "arrmap"}
+var shapeVals = []string{"null", "undefined", "1", "1.5", "-1", "'s'", "true", "({})", "[]", "[1]", "ptrs[1]", "ptrs[0]", "structs[0]", "nested[0]", "function(){}", "funcs[0]", "new Number(3)", "ptrmap.a", "namedkeys", "1e21", "NaN", "[1.5]", "[1, 2]", "[1, 2, 3]", "arrs[0]"}
 var shapeKeys = []string{"0", "1", "2", "5", "a", "b", "zz", "010", "0x10", "+8", "8", "16", "-1", "1_0", "true", "t", "length", "ID", "Name", "N", "A"}
 
 func genShape(r *gen.Rand) ShapeCase {
@@ -79,7 +79,9 @@ func (k *checker) checkShape(s ShapeCase) bool {
 	funcs := []func() int{func() int { return 1 }, func() int { return 2 }}
 	ifacekeys := map[interface{}]int{"a": 1}
 	rec := &shRec{Name: "r"} // the embedded pointer is nil
-	for name, v := range map[string]interface{}{"ptrs": ptrs, "ptrmap": ptrmap, "structs": structs, "nested": nested, "namedkeys": namedkeys, "intkeys": intkeys, "boolkeys": boolkeys, "ifaces": ifaces, "funcs": funcs, "ifacekeys": ifacekeys, "rec": rec,
+	arrs := [][2]float64{{1, 2}, {3, 4}}
+	arrmap := map[string][2]int64{"a": {1, 2}}
+	for name, v := range map[string]interface{}{"ptrs": ptrs, "ptrmap": ptrmap, "structs": structs, "nested": nested, "namedkeys": namedkeys, "intkeys": intkeys, "boolkeys": boolkeys, "ifaces": ifaces, "funcs": funcs, "ifacekeys": ifacekeys, "rec": rec, "arrs": arrs, "arrmap": arrmap,
 		"fd": func(d time.Duration) string { return d.String() }, "fc": func(c shCelsius) float64 { return float64(c) }, "fb": func(b shFlag) bool { return bool(b) },
 		"fs": func(s string) string { return s }, "flen": func(xs []int) int { return len(xs) }, "fkey": func(m map[shKey]int) int { return len(m) }, "frec": func(r shRec) string { return r.Name }} {
 		if err := vm.Set(name, v); err != nil {
